@@ -59,6 +59,10 @@ func (g *Gen) generate(id string) {
 			have := map[string]bool{}
 			for _, cb := range cases {
 				have[cb.Case] = true
+				if _, tr := cb.flag("trusted"); tr {
+					g.Assumed["case not verified (trusted): "+cb.ID()] = true
+					continue
+				}
 				if !done[cb.ID()] {
 					done[cb.ID()] = true
 					g.verifyCase(cb)
